@@ -120,6 +120,7 @@ U64Quick == {<<0, 0, 0, 0>>, <<0, 1, 0, 0>>, <<65535, 65535, 65535, 65535>>}    
 U64Full  == U64Quick \cup {<<0, 0, 0, 1>>, <<0, 0, 65535, 65535>>}                    \* ... 1, 2^32-1
 U32One   == {<<65535, 65535>>}
 U64One   == {<<0, 1, 0, 0>>}
+U64Two   == {<<0, 1, 0, 0>>, <<65535, 65535, 65535, 65535>>}                            \* 2^32, 2^64-1
 KeysOne  == {<<107>>}
 KeysTwo  == {<<107>>, <<107, 64, 120, 46, 121>>}                                      \* "k", "k@x.y"
 ValsTwo  == {<<>>, <<0, 255, 10>>}
